@@ -55,7 +55,7 @@ def record_td(spec):
     rng = np.random.default_rng(spec["seed"])
     ev = []
     for order in spec["orders"]:
-        n = int(rng.choice([order + 1, order + 2, 50, 400, 3000]))
+        n = int(rng.choice([order + 1, order + 2, 50, 400, 3000])) if not spec.get("long") else (12000 if order <= 3 else 4000)
         t = np.arange(n, dtype=float)
         x = np.cumsum(rng.standard_normal(n)) + 3.0
         r = np.asarray(dsp.polynomial_detrend(x, order=order))
@@ -90,6 +90,18 @@ def record_td(spec):
         ev.append({"t": "rms", "qadd": traces.q(abs(parts - full) / (full + 1e-300), 2 ** 30), "nested": int(inner <= np.sqrt(full) * (1 + 1e-12)),
                    "qswap": traces.q(abs(sw - np.sqrt(full)) / (np.sqrt(full) + 1e-300), 2 ** 30),
                    "qfull": traces.q(abs(fullband - float(dsp.integral_rms(f, asd))) / (fullband + 1e-300), 2 ** 30), "cross_raises": raises})
+    for _ in range(spec.get("nsteep", 0)):
+        # steep (1/f^3) ASD over many decades: the band power must be the integral over the in-band points, not a difference of large numbers
+        nf = int(rng.integers(30, 80))
+        f = np.logspace(-3, 3, nf)
+        asd = f ** -3.0 * rng.uniform(0.5, 2.0, size=nf)
+        i = int(rng.integers(nf // 2, nf - 3))
+        j = int(rng.integers(i + 2, nf))
+        a, b = float(f[i]), float(f[j - 1])
+        got = float(dsp.integral_rms(f, asd, (a, b))) ** 2
+        m = (f >= a) & (f <= b)
+        want = float(np.sum(np.diff(f[m]) * (asd[m][1:] ** 2 + asd[m][:-1] ** 2) / 2.0))
+        ev.append({"t": "steep", "qdef": traces.q(abs(got - want) / want, 2 ** 30)})
     if spec.get("parseval"):
         import speckit
         N = 100000
@@ -134,7 +146,7 @@ def run(tier):
         for (what, got, exp) in probs:
             V.violation(f"{PID}|wrapper|{what}|sel={w['cfg']['sel']}", {"kind": "wrapper_case", "case": w, "message": f"df_detrend {w['cfg']}: {what}: {got} vs {exp}"})
     rnd = random.Random(sd + 51)
-    specs = [dict(seed=rnd.randrange(2 ** 31), orders=[0, 1, 2, 3, 4, 5], nrms=10, parseval=(k == 0)) for k in range(4 if tier == "quick" else 30)]
+    specs = [dict(seed=rnd.randrange(2 ** 31), orders=[0, 1, 2, 3, 4, 5], nrms=10, nsteep=6, parseval=(k == 0), long=(k == 1)) for k in range(4 if tier == "quick" else 30)]
     trs = common.pmap(record_td, specs, chunksize=1)
     vd, tres = traces.validate("TimeDomainTrace", f"{PID}_trace", trs)
     V.model(tres, "TimeDomainTrace.tla (orders 3-5, random grids and bands, Parseval contract)")
